@@ -336,4 +336,66 @@ theorem holder_leadsTo_out (a : Nat) (r : Run sys) (hfair : WeakFair sys (fun _ 
     · exact Or.inl h
     · exact Or.inr (h.2 hH)
 
+/-- **An absorbing negative Add gets out.**  While receiver `r` is absorbing, the Send that armed is still in its send phase and
+    owes it a value; along every run weakly fair for that Send's class, a state is reached in which `r` is no longer absorbing or
+    `a` is no longer the sending Send. -/
+theorem absorbing_leadsTo (a r0 : Nat) (r : Run sys) (hfair : WeakFair sys (fun _ act => holderStep a act) r) :
+    ∀ i, ∃ j, i ≤ j ∧ (((r.st j).recvs r0).pc ≠ .absorbing ∨ ((r.st j).senders a).pc ≠ .sending) := by
+  apply leadsTo sys (fun _ act => holderStep a act) r (fun s => Reach sys s)
+    (fun s => (s.recvs r0).pc ≠ .absorbing ∨ (s.senders a).pc ≠ .sending) (holdRank a) hfair (fun i => run_reach _ r i)
+  · intro s hr hg
+    have hs : (s.senders a).pc = .sending := by
+      cases e : (s.senders a).pc <;> first | rfl | (exfalso; apply hg; right; rw [e]; simp)
+    exact holder_enabled (cinv_reach s hr) a (sending_inW hs)
+  · intro s act s' hr hg hs
+    have hsd : (s.senders a).pc = .sending := by
+      cases e : (s.senders a).pc <;> first | rfl | (exfalso; apply hg; right; rw [e]; simp)
+    rcases holdRank_step a (cinv_reach s hr) (cinv_reach s' (Reach.step hr hs)) (sending_inW hsd) hs with h | h
+    · left; right; intro e; rw [e] at h; simp [inW] at h
+    · exact Or.inr h.1
+  · intro s act s' hr hg hH hs
+    have hsd : (s.senders a).pc = .sending := by
+      cases e : (s.senders a).pc <;> first | rfl | (exfalso; apply hg; right; rw [e]; simp)
+    rcases holdRank_step a (cinv_reach s hr) (cinv_reach s' (Reach.step hr hs)) (sending_inW hsd) hs with h | h
+    · left; right; intro e; rw [e] at h; simp [inW] at h
+    · exact Or.inr (h.2 hH)
+
+/-- the control flow of a Send call -/
+def nextOKc : SPc → SPc → Bool
+  | .idle, .want | .idle, .done | .want, .locked | .locked, .unlocking | .locked, .dead | .locked, .loaded
+  | .loaded, .sending | .loaded, .locked | .sending, .unlocking | .sending, .dead | .unlocking, .done => true
+  | p, q => p == q
+
+theorem pc_next_c {s s' : St} {act : Act} (b : Nat) (hs : sys.step s act = some s') :
+    nextOKc (s.senders b).pc (s'.senders b).pc = true := by
+  have hrefl : ∀ p : SPc, nextOKc p p = true := by intro p; cases p <;> rfl
+  cases act
+  all_goals (simp only [sys, step] at hs <;> (repeat' (split at hs)) <;> cases hs <;> (try exact hrefl _))
+  all_goals (simp only [upd_apply]; (repeat' split) <;> (first | exact hrefl _ | (subst_vars; simp_all [nextOKc])))
+
+/-- when the armed Send leaves its send phase nobody is absorbing any more -/
+theorem no_absorber_after_send_phase {s s' : St} {act : Act} (a : Nat) (h : CInv s) (h' : CInv s') (hs : sys.step s act = some s')
+    (ha : (s.senders a).pc = .sending) (ha' : (s'.senders a).pc ≠ .sending) (r0 : Nat) : (s'.recvs r0).pc ≠ .absorbing := by
+  intro hab
+  -- in s' somebody absorbs, so some Send is sending
+  have hk := h'.kPos r0 hab
+  have hrn : r0 < s'.nRecv := lt_nRecv h' r0 (by intro e; rw [e] at hab; cases hab)
+  have hP : 0 < s'.P := by
+    have := sumTo_ge_term (fun u => (s'.recvs u).k) hrn
+    rw [← h'.sumP] at this; omega
+  have hex : ∃ b, (s'.senders b).pc = .sending := by
+    apply Classical.byContradiction
+    intro hn
+    have := (h'.idle (fun b hb => hn ⟨b, hb⟩)).2
+    omega
+  obtain ⟨b, hb⟩ := hex
+  by_cases e : b = a
+  · subst e; exact ha' hb
+  · -- b was outside the locked region in s (a held the mutex) and cannot be sending one step later
+    have hbs := only_writer h (sending_inW ha) e
+    have := pc_next_c b hs
+    rw [hb] at this
+    revert this hbs
+    cases (s.senders b).pc <;> simp [nextOKc, inW]
+
 end BB.Caster
